@@ -82,6 +82,7 @@ fn one(hist: &serde_json::Value, mode: &str, h_timeout: i64, o_timeout: i64) -> 
     svc.group_service = Arc::new("g@@svc".to_string());
     let mut shadow: BTreeSet<u32> = BTreeSet::new();
     let mut overdue: BTreeSet<u32> = BTreeSet::new();
+    let mut taken_over: BTreeSet<u32> = BTreeSet::new();
     for (k, op) in hist["ops"].as_array().cloned().unwrap_or_default().iter().enumerate() {
         let name = op["op"].as_str().unwrap_or("");
         let port = op["port"].as_u64().unwrap_or(1) as u32;
@@ -154,13 +155,20 @@ fn one(hist: &serde_json::Value, mode: &str, h_timeout: i64, o_timeout: i64) -> 
             "mark_invalid" => svc.update_instance_healthy_invalid(&key),
             "mark_valid" => svc.update_perpetual_instance_healthy_valid(&key),
             "refresh" => svc.do_refresh_process_range(),
+            "takeover" => {
+                // the service fell into this node's range after a cluster change: the instances of other nodes are its responsibility now
+                svc.do_refresh_process_range();
+                for kk in svc.instances.keys() {
+                    taken_over.insert(kk.port);
+                }
+            }
             "tick" => {
                 let now_t = op["now"].as_i64().unwrap_or(0);
                 let before: Vec<(InstanceShortKey, Arc<Instance>)> = svc.instances.iter().map(|(k, v)| (k.clone(), v.clone())).collect();
                 svc.time_check(now_t - h_timeout, now_t - o_timeout);
                 for (kk, v) in before {
                     let age = now_t - v.last_modified_millis;
-                    let supervised = v.ephemeral && !v.from_grpc && v.from_cluster == 0;
+                    let supervised = v.ephemeral && !v.from_grpc && (v.from_cluster == 0 || taken_over.contains(&kk.port));
                     let nowv = svc.instances.get(&kk).cloned();
                     if !supervised {
                         match nowv {
